@@ -156,6 +156,22 @@ def run(tier, seed):
             bad.append(dict(failed="hop target = first slot of the cumulative partition containing zeta (exact dyadic case: want %d got %d)" % (want, tgt), case=info))
         if out and (out[0]["zeta"] != zeta or abs(out[0]["prob"] - cs[tgt]) > 0):
             bad.append(dict(failed="hop record carries the threshold and the cumulative probability of the slot", case=info))
+    # ---- the Poisson option given on the command line reaches the trajectories of every class that applies it in its hopper
+    import io, mudslide.__main__ as mm
+    for alg, C_ in [("fssh", mudslide.TrajectorySH), ("afssh", mudslide.AugmentedFSSH)]:
+        for prob in ("tully", "poisson"):
+            seen = []
+            o_init = C_.__init__
+            def spy(self_, *a, _o=o_init, **k):
+                _o(self_, *a, **k); seen.append(getattr(self_, "hopping_probability", None))
+            C_.__init__ = spy
+            try:
+                mm.main(["-m", "simple", "-a", alg, "-p", prob, "-n", "1", "-k", "12", "12", "-s", "2", "-z", "5", "-x", "-3", "-b", "3.5"], file=io.StringIO())
+            finally:
+                C_.__init__ = o_init
+            res.count("cli-probability-option/%s/%s" % (alg, prob))
+            if not seen or any(v != prob for v in seen):
+                bad.append(dict(failed="the Poisson option scales the hop probabilities (command line -a %s -p %s built trajectories with hopping_probability=%r)" % (alg, prob, seen), case=dict(algorithm=alg, option=prob)))
     checker = ("fun c : case03 => let '(rr, wc, k, dt, pois, zeta, ig, itg, ihop, strict) := c in\n"
                " if strict then (let '(tg, hp) := hopper FOps pois ig zeta in Nat.eqb (opt_to_nat (length ig) tg) itg && fclose 0 0x1p-50 hp ihop)\n"
                " else chk03 c")
